@@ -16,7 +16,8 @@ STEP_OPS = {
     "DUP": dict(cov=CRC | CDEG),
     "POP": dict(cov=ALL3),
     "SWAP": dict(cov=0), "ROT3": dict(cov=0),
-    "LOAD_LOCAL": dict(cov=CRC | CDEG), "STORE_LOCAL": dict(cov=ALL3),
+    # the addressed local below the window is any of the 7 kinds (vm_step_h.c); the window slots: scalars or strings
+    "LOAD_LOCAL": dict(cov=CRC | CDEG, mask=SC | ST), "STORE_LOCAL": dict(cov=ALL3, mask=SC | ST),
     "ARR_GET": dict(cov=ALL3), "ARR_SET": dict(cov=ALL3), "ARR_POP": dict(cov=0), "ARR_LEN": dict(cov=ALL3),
     "ARR_REMOVE": dict(cov=CDEG, defs={"VERIF_ARR_CAP": 8}, bound="array capacity <= 8", ge_only=True),
     "STRUCT_GET": dict(extra=SU, cov=ALL3), "STRUCT_SET": dict(extra=SU, cov=ALL3),
@@ -32,9 +33,9 @@ MINT = 128   # shape mask of vm_step_h.c: TAG_INT only
 # opcodes that read or write container elements: separate obligations in which the element at the index of interest IS the
 # string another slot holds (shapes pinned): op -> (container slot, string slot, (M0, M1, M2))
 ELEM_ALIAS = {
-    "ARR_SET": (2, 0, (ST, MINT, AR)), "STRUCT_SET": (1, 0, (ST, SU, BASE)),
-    "ARR_GET": (1, 2, (MINT, AR, ST)), "ARR_REMOVE": (1, 2, (MINT, AR, ST)), "ARR_POP": (0, 1, (AR, ST, BASE)),
-    "STRUCT_GET": (0, 1, (SU, ST, BASE)), "TUPLE_GET": (0, 1, (TU, ST, BASE)), "UNION_FIELD": (0, 1, (UN, ST, BASE)),
+    "ARR_SET": (2, 0, (ST, MINT, AR)), "STRUCT_SET": (1, 0, (ST, SU, SC)),
+    "ARR_GET": (1, 2, (MINT, AR, ST)), "ARR_REMOVE": (1, 2, (MINT, AR, ST)), "ARR_POP": (0, 1, (AR, ST, SC)),
+    "STRUCT_GET": (0, 1, (SU, ST, SC)), "TUPLE_GET": (0, 1, (TU, ST, SC)), "UNION_FIELD": (0, 1, (UN, ST, SC)),
 }
 
 
@@ -43,7 +44,7 @@ def step_obligations():
     for op, cfg in STEP_OPS.items():
         o = vmstep.step("C14", "C14.step." + op, "h_c14", op, harness=RC, must_have=[r"C14\.step\.safety", r"COVER"], timeout=420,
                         flags=["--no-pointer-primitive-check"])
-        m = BASE | cfg.get("extra", 0)
+        m = cfg.get("mask", BASE) | cfg.get("extra", 0)
         o["defines"].update({"VERIF_M0": m, "VERIF_M1": m, "VERIF_M2": m, "VERIF_STACK_SIZE": 7,
                              "VERIF_RC_COVERS": cfg.get("cov", 0) | CALIAS})
         o["defines"].update(cfg.get("defs", {}))
@@ -78,14 +79,45 @@ def release_obligations():
     helper = {"array": "release_array", "struct": "release_struct", "union": "release_union", "tuple": "release_tuple",
               "closure": "release_closure"}
     for nm, k in KINDS.items():
-        gi = ["--enforce-contract-rec", "vm_release"]
         # bodies not needed by this kind are removed (a call to one of them is then an assert(false): proves it unreachable)
+        gi = []
         for f in NOBODY + [h for kk, h in helper.items() if kk != nm]:
             gi += ["--remove-function-body", f]
         obs.append(dict(id="C14.heap.release." + nm, prop="C14", harness=HEAP, entry="h_release", annotate=HANN,
-                        defines={"VERIF_HKIND": k}, gi_flags=gi, loops=True, unwind="auto", strength="X",
-                        functions=["vm_release", "release_array", "release_struct", "release_union", "release_tuple", "release_closure"],
-                        timeout=240, must_have=[r"vm_release\.postcondition", r"COVER"], min_checks=30))
+                        defines={"VERIF_HKIND": k}, gi_flags=gi, enforce="vm_release", replace=[helper[nm]] if nm in helper else [],
+                        loops=True, unwind=5, strength="X", functions=["vm_release"],
+                        timeout=240, flags=["--no-pointer-primitive-check"], must_have=[r"vm_release\.postcondition", r"COVER"], min_checks=30))
+        if nm in helper:
+            obs.append(dict(id="C14.heap.helper." + nm, prop="C14", harness=HEAP, entry="h_helper", annotate=HANN,
+                            defines={"VERIF_HKIND": k, "HEAP_VIEW_CHILD": 1}, gi_flags=gi, enforce=helper[nm], replace=["vm_release"],
+                            loops=True, unwind="auto", strength="X", functions=[helper[nm]],
+                            timeout=240, flags=["--no-pointer-primitive-check"],
+                            must_have=[helper[nm] + r"\.postcondition", r"vm_release\.precondition", r"loop_invariant_step", r"decreases", r"COVER"],
+                            min_checks=30))
+    return obs
+
+
+def container_obligations():
+    obs = []
+    gi = []
+    for f in NOBODY + ["release_array", "release_struct", "release_union", "release_tuple", "release_closure", "vm_release", "vm_array_slice"]:
+        gi += ["--remove-function-body", f]
+    def ob(name, entry, fn, loops=False, unwind=6, **kw):
+        d = dict(id="C14.heap." + name, prop="C14", harness=HEAP, entry=entry, annotate=HANN, gi_flags=gi, enforce=fn, loops=loops,
+                 unwind=unwind, strength="U", functions=[fn], timeout=300, must_have=[fn + r"\.postcondition", r"COVER"], min_checks=15)
+        d.update(kw)
+        return d
+    obs.append(ob("arr.get", "h_arr_get", "vm_array_get"))
+    obs.append(ob("arr.set", "h_arr_set", "vm_array_set"))
+    obs.append(ob("arr.pop", "h_arr_pop", "vm_array_pop"))
+    obs.append(ob("arr.remove", "h_arr_remove", "vm_array_remove", loops=True, unwind="auto",
+                  must_have=[r"vm_array_remove\.postcondition", r"loop_invariant_step", r"decreases", r"COVER"]))
+    obs.append(ob("arr.push", "h_arr_push", "vm_array_push"))
+    obs.append(ob("new.array", "h_arr_new", "vm_array_new"))
+    obs.append(ob("new.struct", "h_struct_new", "vm_struct_new"))
+    obs.append(ob("new.union", "h_union_new", "vm_union_new"))
+    obs.append(ob("new.tuple", "h_tuple_new", "vm_tuple_new"))
+    obs.append(ob("new.closure", "h_closure_new", "vm_closure_new"))
     return obs
 
 
@@ -94,5 +126,6 @@ def obligations(repo):
     obs.append(dict(id="C14.heap.retain", prop="C14", harness=HEAP, entry="h_retain", enforce="vm_retain", unwind=5,
                     strength="U", functions=["vm_retain"], must_have=[r"vm_retain\.postcondition", r"COVER"], min_checks=10))
     obs += release_obligations()
+    obs += container_obligations()
     obs += step_obligations()
     return obs
